@@ -31,6 +31,19 @@ Theorem C25_select_current : forall u size l0 h ns,
 Proof. exact C25_select_current_proof. Qed.
 Print Assumptions C25_select_current.
 
+(* auto_reload is a public attribute: whatever its value while the history h1 ran (templates cached with
+   auto_reload off keep their up-to-date check), once it is switched on every request is current *)
+Theorem C25_autoreload_current_after_toggle : forall ar0 u size l0 h1 h2 n,
+  upt_correct u = true ->
+  let e1 := fst (run (new_env ar0 u size l0) h1) in
+  let e2 := fst (run (set_auto e1 true) h2) in
+  match loader_after (loader_after l0 h1) h2 n with
+  | Some v => exists t, snd (load_template e2 n) = RTpl t v
+  | None => snd (load_template e2 n) = RNotFound
+  end.
+Proof. exact C25_autoreload_current_after_toggle_proof. Qed.
+Print Assumptions C25_autoreload_current_after_toggle.
+
 (* without auto_reload a cached template is returned as it is, whatever happened to its
    source (every cache kind, one step) ... *)
 Theorem C25_no_reload_cached : forall u size l0 h n t,
